@@ -24,10 +24,10 @@ pub fn p2<S: Src>(s: &mut S) {
     std::mem::forget((da, db));
 }
 crate::harnesses! {
-    probe_p1 => p1();
-    probe_p2 => p2();
-    probe_p3 => p3();
-    probe_p4 => p4();
+    probe_p1[4] => p1();
+    probe_p2[4] => p2();
+    probe_p3[4] => p3();
+    probe_p4[4] => p4();
 }
 pub fn p3<S: Src>(s: &mut S) {
     let a = s.u8() as u64;
